@@ -4,5 +4,5 @@ package pubsub
 
 import "encoding/json"
 
-func vfC15SchedRun(r *vfRun)                            { r.harnessError("sched variant not built") }
+func vfC15SchedRun(r *vfRun)                         { r.harnessError("sched variant not built") }
 func vfC15SchedReplay(r *vfRun, raw json.RawMessage) {}
